@@ -343,6 +343,12 @@ def run(ctx, rep):
     cl = cand_lists[0].targets[0].id
     apps = [c for c in walk_no_nested(fn.node) if isinstance(c, ast.Call) and isinstance(c.func, ast.Attribute) and c.func.attr == 'append'
             and isinstance(c.func.value, ast.Name) and c.func.value.id == cl]
+    grown = [c for c in walk_no_nested(fn.node) if (isinstance(c, ast.Call) and isinstance(c.func, ast.Attribute) and c.func.attr in ('extend', 'insert') and isinstance(c.func.value, ast.Name)
+                                                      and c.func.value.id == cl) or (isinstance(c, ast.AugAssign) and isinstance(c.target, ast.Name) and c.target.id == cl)
+             or (isinstance(c, ast.Assign) and any(isinstance(t, ast.Name) and t.id == cl for t in c.targets) and c is not cand_lists[0])]
+    if not apps and grown:
+        rep.undecided('D1.state', fn, grown[0], f'the candidate list is grown by `{short(grown[0], 60)}`: how the other families are created and calibrated is not derived', construct='candidate families')
+        return
     if not apps:
         rep.bad('D1.state', fn, cand_lists[0], 'no candidate besides the fitted Frank is ever appended: Clayton and Gumbel are never offered', construct='candidate families')
     constructed = set()
@@ -531,6 +537,33 @@ def run(ctx, rep):
                             f'{sorted(g_)} (on some path): the tail function is computed from values of another grid', construct='curve and grid agree')
                 else:
                     rep.ok('D3.index', helper, c_, f'C(z, z) and z = {z_} agree', construct='curve and grid agree')
+        # the same check when the upper-tail formula stands in the helper itself: `(1 - 2 * G + C) / (1 - G) ** 2` with G a grid parameter
+        for x in walk_no_nested(helper.node):
+            den = x.right if isinstance(x, ast.BinOp) and isinstance(x.op, ast.Div) else None
+            sq = None
+            if isinstance(den, ast.BinOp) and isinstance(den.op, ast.Pow) and const_value(den.right) == 2:
+                sq = den.left
+            elif isinstance(den, ast.Call) and call_name(den) == 'power' and len(den.args) == 2 and const_value(den.args[1]) == 2:
+                sq = den.args[0]
+            elif isinstance(den, ast.Call) and call_name(den) == 'square' and den.args:
+                sq = den.args[0]
+            if not (isinstance(sq, ast.BinOp) and isinstance(sq.op, ast.Sub) and const_value(sq.left) in (1, 1.0)):
+                continue
+            g_e = sq.right
+            while isinstance(g_e, ast.Call) and call_name(g_e) in ('asarray', 'array') and g_e.args:
+                g_e = g_e.args[0]
+            if not (isinstance(g_e, ast.Name) and g_e.id in helper.params):
+                continue
+            curves = [n_ for n_ in ast.walk(x.left) if isinstance(n_, ast.Name) and n_.id != g_e.id and n_.id not in helper.params]
+            for cn in curves:
+                g_ = grids_of(cn)
+                if g_ is None:
+                    continue
+                if g_ != {g_e.id}:
+                    rep.bad('D3.index', helper, x, f'`{short(x, 70)}`: the upper-tail function on the grid `{g_e.id}` uses CDF values evaluated on the diagonal of {sorted(g_)} '
+                            '(on some path): the tail function is computed from values of another grid', construct='curve and grid agree')
+                else:
+                    rep.ok('D3.index', helper, x, f'C(z, z) and z = {g_e.id} agree', construct='curve and grid agree')
         if ok is None:
             rep.undecided('D3.index', helper, helper.node.name, 'how the tail curves of the candidates are produced was not recognised', construct='co-ordered curves')
         else:
